@@ -3,7 +3,8 @@
   inequality between the arguments is the underflow guard `−709.78… ≤ a·ln x − x − LG a`, a statement about the
   model's Lanczos `ln_gamma`; here it is discharged at `a = 1` by evaluating the Lanczos sum exactly
   (`S(1) = 0.2624…`, so `LG 1 ≤ 10`).  So at `(a,x) = (1,1)` (series) and `(1,2)` (continued fraction) the
-  value/accuracy theorems hold UNCONDITIONALLY.
+  value/accuracy theorems hold UNCONDITIONALLY.  (A third unconditional point, `a = 0.001`, `x = 2^−50` — inside the
+  range of the `x ≈ 0` shortcut removed by commit 9f2f5b7 — is in `GammaSeriesSmallX.lean`: `gamma_lr_small_x_witness`.)
 -/
 import Statrs.Props.C11.GammaSeriesUr
 namespace Statrs.Props.C11
